@@ -673,7 +673,9 @@ pub fn check(a: CheckArgs) -> i32 {
                     tot.runs += 1;
                     let n = restarts.entry(j).or_insert(0);
                     *n += 1;
-                    if *n <= 50 && r + a.jobs < a.runs && t0.elapsed().as_secs_f64() < a.budget_s {
+                    // a hang costs a minute of real time each: after the finding is made, do not keep paying for it
+                    let cap = if kind == "task_stuck" { 1 } else { 50 };
+                    if *n <= cap && r + a.jobs < a.runs && t0.elapsed().as_secs_f64() < a.budget_s {
                         handles.push(spawn_child(j, r + a.jobs, tx.clone(), &a, false));
                     } else {
                         live -= 1;
